@@ -54,10 +54,25 @@ SRC_THEOREMS = [
 DEEPENED = ["_landmark_groups", "_labels_to_masks"]
 
 
-def heap_rules(deepens=None):
+def _super_copy_is_copyable(owner):
+    """does `super().copy()` inside a method of `owner` resolve to Copyable.copy (live MRO)?"""
+    from menpo.base import Copyable
+    for c in owner.__mro__[1:]:
+        if "copy" in c.__dict__:
+            return c is Copyable
+    return False
+
+
+def heap_rules(deepens=None, owner=None):
     """the five `copy` methods: the world is the heap, `self` a `Src.SelfObj`, the object built a `Src.PObj`"""
-    expr = [
-        ("$s.__class__", "{s}.cls"),                        # one rule per call / attribute: `cls = self.__class__;
+    expr = []
+    if owner is not None and _super_copy_is_copyable(owner):
+        # `super().copy()` / `super(K, self).copy()` is `Copyable.copy(self)` when the live MRO says so
+        expr += [("super().copy()", "(copyableCopy rec {STATE} self)", "bindstate"),
+                 ("super(%s, $s).copy()" % owner.__name__, "(copyableCopy rec {STATE} {s})", "bindstate")]
+    expr += [
+        ("$s.__class__", "{s}.cls"),
+        ("type($s)", "{s}.cls"),                        # one rule per call / attribute: `cls = self.__class__;
         ("$c.__new__($c)", "(Src.newOf {c})"),              # new = cls.__new__(cls)` and the one-liner are the same
         ("$s.__dict__.items()", "{s}.fs"),
         ("$s.__dict__.copy()", "{s}.fs"),
@@ -66,6 +81,7 @@ def heap_rules(deepens=None):
         ("self._h_matrix", '(Src.selfAttr self "_h_matrix")', "bind"),
         ("$n._h_matrix", '(Src.getAttr {n} "_h_matrix")', "bind"),
         ("list($x)", "(Src.listCopy {STATE} {x})", "bindstate"),
+        ("$x[:]", "(Src.listCopy {STATE} {x})", "bindstate"),      # a full slice of a list is a new list as well
     ]
     stmt = [
         ("$n.__dict__[$k] = $v", "n", "(Src.setAttr {n} {k} {v})"),
@@ -78,7 +94,10 @@ def heap_rules(deepens=None):
         stmt.append(("$n.%s[$k] = $v" % x, "n", '(Src.setItem {STATE} {n} "%s" {k} {v})' % x))
     expr.append(("$v.copy()", "(Src.callCopy rec {STATE} {v})", "bindstate"))
     ret = ".ok ({e}, {STATE})" if deepens is None else '.ok (Src.sealOver {STATE} {e} "%s", {STATE})' % deepens
-    return S.Rules2S(expr=expr, stmt=stmt, ret=ret, catch={"AttributeError": ".error .attr"}, state_name="h",
+    # TypeError: the heap model has no such failure (`.copy()` fails with AttributeError or not at all), so naming it
+    # in the `except` next to AttributeError changes nothing in the model
+    return S.Rules2S(expr=expr, stmt=stmt, ret=ret, catch={"AttributeError": ".error .attr", "TypeError": None},
+                     state_name="h",
                      alias_attrs=DEEPENED)
 
 
@@ -128,16 +147,17 @@ def items():
 
     out = []
 
-    def heap(name, fn, deepens=None):
+    def heap(name, fn, deepens=None, owner=None):
         sig = ("def %s (rec : Src.Rec) (h : Heap) (self : Src.SelfObj) : Except MenpoModel.C06.Err (Src.PObj × Heap) :="
                % name)
-        out.append((sig, lambda: S.Translator2S(heap_rules(deepens)).function(
+        out.append((sig, lambda: S.Translator2S(heap_rules(deepens, owner)).function(
             fn, {"self": "self", S.STATE: "h"}, ind=1), "  .error .unknown"))
 
     heap("copyableCopy", Copyable.__dict__["copy"])
-    heap("landmarkManagerCopy", LandmarkManager.__dict__["copy"], "_landmark_groups")
-    heap("labelledCopy", LabelledPointUndirectedGraph.__dict__["copy"], "_labels_to_masks")
-    heap("lazyListCopy", LazyList.__dict__["copy"])
+    heap("landmarkManagerCopy", LandmarkManager.__dict__["copy"], "_landmark_groups", LandmarkManager)
+    heap("labelledCopy", LabelledPointUndirectedGraph.__dict__["copy"], "_labels_to_masks",
+         LabelledPointUndirectedGraph)
+    heap("lazyListCopy", LazyList.__dict__["copy"], None, LazyList)
     heap("homogAlignCopy", HomogFamilyAlignment.__dict__["copy"])
 
     # the lazily created manager: LandmarkManager.__init__ on the object under construction, the getter on the heap
@@ -192,7 +212,10 @@ def items():
                       end=".ok {STATE}"),
           {"self": "self", "group": "group"}, ".error .bad")
     world("lmCopy (w : LM.World) (self : Nat) : Except Src.PyExc (Nat × LM.World)", LMd["copy"],
-          world_rules(expr=[("Copyable.copy($s)", "(Src.shallowCopyMgr {STATE} {s})", "bindstate"),
+          world_rules(expr=([("super().copy()", "(Src.shallowCopyMgr {STATE} self)", "bindstate"),
+                             ("super(LandmarkManager, $s).copy()", "(Src.shallowCopyMgr {STATE} {s})", "bindstate")]
+                            if _super_copy_is_copyable(LandmarkManager) else []) + [
+                            ("Copyable.copy($s)", "(Src.shallowCopyMgr {STATE} {s})", "bindstate"),
                             ("$v.copy()", "(Src.copyShape {STATE} {v})", "state")],
                       stmt=[("$n._landmark_groups[$k] = $v", None, "(Src.storeGroup {STATE} {n} {k} {v})", "state")],
                       ret=".ok ({e}, {STATE})"),
